@@ -156,3 +156,112 @@ func stripAssumption(a string) string {
 	}
 	return strip(parseSx(a), true).String()
 }
+
+// unaryDef recognises an assumption of the form (forall ((v S)) (! BODY :pattern ((f v)))): the definition (or a
+// property) of an opaque unary spec function, written for E-matching on f.
+type unaryDef struct {
+	fn, v string
+	body  *sx
+}
+
+func asUnaryDef(a string) *unaryDef {
+	if !strings.HasPrefix(a, "(forall ((") {
+		return nil
+	}
+	n := parseSx(a)
+	if n == nil || len(n.list) != 3 || n.head() != "forall" {
+		return nil
+	}
+	bs := n.list[1]
+	if bs.list == nil || len(bs.list) != 1 || len(bs.list[0].list) != 2 {
+		return nil
+	}
+	v := bs.list[0].list[0].atom
+	b := n.list[2]
+	if b.head() != "!" || len(b.list) != 4 || b.list[2].atom != ":pattern" {
+		return nil
+	}
+	pats := b.list[3]
+	if pats.list == nil || len(pats.list) != 1 {
+		return nil
+	}
+	pt := pats.list[0]
+	if pt.list == nil || len(pt.list) != 2 || pt.list[0].list != nil || pt.list[1].atom != v {
+		return nil
+	}
+	return &unaryDef{fn: pt.list[0].atom, v: v, body: b.list[1]}
+}
+
+func substSx(n *sx, v string, by *sx) *sx {
+	if n.list == nil {
+		if n.atom == v {
+			return by
+		}
+		return n
+	}
+	out := &sx{list: make([]*sx, len(n.list))}
+	for i, c := range n.list {
+		out.list[i] = substSx(c, v, by)
+	}
+	return out
+}
+
+// groundInstances: the instances of the unary definitions at the ground applications (f t) that occur in the given
+// quantifier-free formulas (and, transitively, in the instances).  Instances of assumed universal formulas: sound.
+func groundInstances(defs []*unaryDef, formulas []string, limit int) []string {
+	byFn := map[string][]*unaryDef{}
+	for _, d := range defs {
+		byFn[d.fn] = append(byFn[d.fn], d)
+	}
+	if len(byFn) == 0 {
+		return nil
+	}
+	seen := map[string]bool{}
+	var out []string
+	var work []*sx
+	for _, f := range formulas {
+		mentions := false
+		for fn := range byFn {
+			if strings.Contains(f, "("+fn+" ") {
+				mentions = true
+				break
+			}
+		}
+		if mentions {
+			work = append(work, parseSx(f))
+		}
+	}
+	var walk func(n *sx, bound bool)
+	for len(work) > 0 && len(out) < limit {
+		n := work[0]
+		work = work[1:]
+		walk = func(n *sx, bound bool) {
+			if n == nil || n.list == nil {
+				return
+			}
+			h := n.head()
+			if h == "forall" || h == "exists" {
+				return
+			}
+			if ds, ok := byFn[h]; ok && len(n.list) == 2 {
+				arg := n.list[1].String()
+				if !strings.Contains(arg, "$") {
+					for _, d := range ds {
+						key := d.fn + "|" + d.v + "|" + arg
+						if !seen[key] && len(out) < limit {
+							seen[key] = true
+							inst := strip(substSx(d.body, d.v, n.list[1]), true)
+							out = append(out, inst.String())
+							work = append(work, inst)
+						}
+					}
+				}
+			}
+			for _, c := range n.list {
+				walk(c, bound)
+			}
+		}
+		walk(n, false)
+	}
+	return out
+}
